@@ -486,7 +486,7 @@ pub fn pipedrop_case(p: &Profile, drop_output: bool) -> BoxedStrategy<Case> {
     mid.opw = if drop_output {
         OpW { consume: 6, yield_: 6, desync: 4, sync: 2, opengate: 2, trysync: 1, futdesync: 0, futsync: 0, after: 0, await_: 0, syncwait: 0, pollonce: 0, dropfut: 0, detach: 0, release: 0, waitfor: 0, ..OpW::default() }
     } else {
-        OpW { consume: 14, yield_: 4, desync: 2, sync: 1, opengate: 2, trysync: 0, futdesync: 0, futsync: 0, after: 0, await_: 0, syncwait: 0, pollonce: 0, dropfut: 0, detach: 0, release: 0, waitfor: 0, ..OpW::default() }
+        OpW { consume: 14, consumeinline: 3, yield_: 4, desync: 2, sync: 1, opengate: 2, trysync: 0, futdesync: 0, futsync: 0, after: 0, await_: 0, syncwait: 0, pollonce: 0, dropfut: 0, detach: 0, release: 0, waitfor: 0, ..OpW::default() }
     };
     let mid_ops = vec(op_strategy(&mid), if drop_output { 0..=3 } else { 1..=5 });
     let pipe_body = vec(prop_oneof![4 => Just(Step::Touch), 4 => Just(Step::Yield), 3 => any::<u8>().prop_map(|g| Step::AwaitGate { g }), 1 => Just(Step::SelfWake)], 0..=2);
@@ -506,10 +506,17 @@ pub fn pipedrop_case(p: &Profile, drop_output: bool) -> BoxedStrategy<Case> {
             let mut seq = vec![Op::Pipe { o, s: 0, depth, body, slot: 255, id: 0 }];
             seq.extend(mid.into_iter().map(|m| match m {
                 Op::Consume { k, .. } => Op::Consume { slot: 255, k },
+                // (C12 is about consumers that read: no tear-down here)
+                Op::ConsumeInline { .. } => Op::ConsumeInline { slot: 255, drop_on_wake: false },
                 other => other,
             }));
             if drop_output {
-                seq.push(Op::DropPipe { slot: 255 });
+                // a quarter of the outputs are not dropped by their owner but by the first wake-up of the (cancelled) task that holds them
+                if depth % 4 == 0 {
+                    seq.push(Op::ConsumeInline { slot: 255, drop_on_wake: true });
+                } else {
+                    seq.push(Op::DropPipe { slot: 255 });
+                }
             }
             let tail = ops.split_off(at);
             ops.extend(seq);
